@@ -72,7 +72,7 @@ fn kv_echo_body(d: usize, split: usize) {
 	std::mem::forget(fx);
 }
 
-// @h prop=C14,C13,C11 tier=quick kind=main timeout=280
+// @h prop=C14,C13,C11 tier=quick kind=main timeout=600
 // @bounds delay line of 1 frame, feedback 0 dB (gain exactly 1), fully wet; 3 frames of symbolic small-integer input; one call of 3 frames, or calls of (1,2) (symbolic choice of the split)
 // @funcs Delay::{init,process}
 // @catches echo arriving a frame early/late; feedback applied twice or not on the first echo; state lost between process calls; sub-chunking of the input by the line length wrong
@@ -80,21 +80,21 @@ fn kv_echo_body(d: usize, split: usize) {
 #[kani::unwind(7)]
 fn c14_delay_echoes_line_1() { kv_echo_body(1, 0); }
 
-// @h prop=C14,C13,C11 tier=quick kind=main timeout=280
+// @h prop=C14,C13,C11 tier=quick kind=main timeout=600
 // @bounds delay line of 1 frame, input split into process calls of (1,2)
 // @funcs Delay::process
 #[kani::proof]
 #[kani::unwind(7)]
 fn c14_delay_echoes_line_1_split() { kv_echo_body(1, 1); }
 
-// @h prop=C14,C13,C11 tier=quick kind=main timeout=280
+// @h prop=C14,C13,C11 tier=quick kind=main timeout=600
 // @bounds delay line of 2 frames, otherwise as above; one call of 3 frames or calls of (1,2)
 // @funcs Delay::{init,process}
 #[kani::proof]
 #[kani::unwind(7)]
 fn c14_delay_echoes_line_2() { kv_echo_body(2, 0); }
 
-// @h prop=C14,C13,C11 tier=quick kind=main timeout=280
+// @h prop=C14,C13,C11 tier=quick kind=main timeout=600
 // @bounds delay line of 2 frames, input split into process calls of (1,2)
 // @funcs Delay::process
 #[kani::proof]
@@ -108,7 +108,7 @@ fn c14_delay_echoes_line_2_split() { kv_echo_body(2, 1); }
 #[kani::unwind(7)]
 fn c14_delay_echoes_line_3() { kv_echo_body(2, 2); }
 
-// @h prop=C13 tier=quick kind=main timeout=280
+// @h prop=C13 tier=quick kind=main timeout=600
 // @bounds delay line of 2 frames with symbolic small-integer contents, feedback 0 dB or -60 dB, mix 0 (fully dry, also below 0): 3 frames of finite input: output == input bit-exactly; cleared line + silence in -> silence out
 // @funcs Delay::process
 // @catches dry path attenuated; mix clamp dropped; silence producing signal from a cleared line
@@ -148,7 +148,7 @@ impl Effect for KvFx {
 	}
 }
 
-// @h prop=C13,C14,C16,C11 tier=quick kind=main timeout=280
+// @h prop=C13,C14,C16,C11 tier=quick kind=main timeout=600
 // @bounds Delay of 2 s with a probe effect (x2) in its feedback loop; init at 2 Hz (4-frame line, internal buffer 4), then on_change_sample_rate DOWN to 1 Hz (2-frame line); then one process call of 3 frames
 // @funcs Delay::{new,init,on_change_sample_rate,process}
 // @catches the rate change not forwarded to feedback effects; the line not re-sized when the rate goes DOWN (delay time then depends on the old rate); feedback effects run over the whole scratch buffer instead of the chunk (state pushed along by stale frames)
